@@ -91,13 +91,25 @@ def point(frames=FRAMES, meta=True):
 
 def line(frames=FRAMES, meta=True):
     def mk(t):
-        d, c, o = t
-        return dict(d, start=c, end={'frame': c['frame'],
-                                     'lon': (c['lon'] + o[0]) % 360.0,
-                                     'lat': max(-89.0, min(89.0, c['lat'] + o[1]))})
+        d, c, o, f2 = t
+        end = {'frame': c['frame'], 'lon': (c['lon'] + o[0]) % 360.0,
+               'lat': max(-89.0, min(89.0, c['lat'] + o[1]))}
+        if f2 and f2 != c['frame']:
+            # the SAME point of the sky, written in the other frame
+            from vf import spec as S
+            try:
+                e2 = S.skycoord(end).transform_to(
+                    S.skycoord({'frame': f2, 'lon': 0.0, 'lat': 0.0}).frame)
+                end = {'frame': f2, 'lon': float(e2.spherical.lon.deg),
+                       'lat': float(e2.spherical.lat.deg)}
+            except Exception:   # noqa: BLE001 - a frame pair astropy cannot
+                pass            # connect offline: keep the start's frame
+        return dict(d, start=c, end=end)
     off = st.floats(-0.2, 0.2)
     return st.tuples(_common({'cls': st.just('LineSkyRegion')}, meta),
-                     skycoords(frames, 80.0), st.tuples(off, off)).map(mk)
+                     skycoords(frames, 80.0), st.tuples(off, off),
+                     # (the end point may be given in another frame / equinox)
+                     st.sampled_from([None, None, None] + list(frames))).map(mk)
 
 
 def text(frames=FRAMES, meta=True):
